@@ -79,6 +79,10 @@ def cmd_run(names, tier):
             if not os.path.isfile(os.path.join(dd, "meta.json")) or (names and not any(n in name for n in names)):
                 continue
             meta = json.load(open(os.path.join(dd, "meta.json")))
+            if meta.get("retired"):
+                print(f"{name:<12} retired: {meta['retired'][:100]}", flush=True)
+                rows.append({"seeded": name, "property": meta["property"], "tier": tier, "checks": {}, "retired": True})
+                continue
             d = make_scratch()
             try:
                 try:
@@ -107,7 +111,7 @@ def cmd_run(names, tier):
         done = {(r["seeded"], r["tier"]) for r in rows}
         prev = [r for r in json.load(open(out)) if (r["seeded"], r["tier"]) not in done]
     json.dump(sorted(prev + rows, key=lambda r: (r["seeded"], r["tier"])), open(out, "w"), indent=1)
-    missed = [r["seeded"] for r in rows if not any(c["caught"] for c in r["checks"].values())]
+    missed = [r["seeded"] for r in rows if not r.get("retired") and not any(c["caught"] for c in r["checks"].values())]
     print(f"{len(rows)} seeded changes, {len(missed)} not caught by any expected check: {missed}")
     return 0
 
